@@ -230,6 +230,13 @@ func streamMerge(scripts [][]sx.Step, closeAfter int, yield bool) Scenario {
 			}
 		}
 		m.Close()
+		hx.Atomically(func() {
+			for _, s := range srcs {
+				if s.Closes == 0 {
+					hx.Fail("source/not-closed-when-Close-returned", "Close of the merged stream has returned but %s has not been closed yet", s.Name)
+				}
+			}
+		})
 		hx.Quiesce()
 		if live := hx.Live(); len(live) > 0 {
 			hx.Fail("goroutine-left-after-Close", "after the merged stream was closed these threads are still alive: %v", live)
